@@ -103,6 +103,30 @@ func bridgeGen(r *Rng, i int, cfg int, tier string) []string {
 			cf = append(cf, "0")
 		}
 		cf = append(cf, genBAction(r, "f-").fields()...)
+		cf = append(cf, genBAction(r, "pers-").fields()...)
+		cf = append(cf, genBAction(r, "sub-").fields()...)
+		cf = append(cf, genBAction(r, "leaf-").fields()...)
+		if r.Chance(2, 5) {
+			// below a sub-command with a persistent flag of its own
+			pre := []string{"sub"}
+			if r.Chance(1, 2) {
+				pre = append(pre, "leaf")
+			}
+			var w2 []string
+			for _, w := range words {
+				if w == "--str" || w == "--str=v" {
+					w = strings.Replace(w, "--str", "--pers", 1)
+				}
+				if w == "--bool" {
+					continue
+				}
+				w2 = append(w2, w)
+			}
+			words = append(pre, w2...)
+			if r.Chance(1, 3) {
+				words = append(words, "--pers")
+			}
+		}
 		cf = append(cf, strList(words)...)
 		note("kind=A")
 		return append(cf, cur)
@@ -159,7 +183,7 @@ func parseExport(raw []byte) (bExport, bool) {
 	// sub-command names cobra / carapace add on their own at the first positional are not part of the bridge
 	kept := doc.Values[:0]
 	for _, v := range doc.Values {
-		if v.Value == "completion" || v.Value == "help" || v.Value == "_carapace" {
+		if v.Value == "completion" || v.Value == "help" || v.Value == "_carapace" || (bridgeFilterSubs && (v.Value == "sub" || v.Value == "leaf")) {
 			continue
 		}
 		kept = append(kept, v)
@@ -223,9 +247,11 @@ func bridgeRoot() *cobra.Command {
 }
 
 var bridgeSeq int
+var bridgeFilterSubs bool
 
 func bridgeRun(cf []string) []string {
 	os.Setenv("CARAPACE_UNFILTERED", "1")
+	bridgeFilterSubs = cf[0] == "A"
 	if cf[0] == "A" {
 		f := cf[1:]
 		build := func() *cobra.Command {
@@ -264,11 +290,20 @@ func bridgeRun(cf []string) []string {
 			} else {
 				g = g[1:]
 			}
-			var fa bAction
+			var fa, pa, sa, la bAction
 			fa, g = takeBAction(g)
 			gen.FlagCompletion(carapace.ActionMap{"str": fa.action()})
-			f2 := g
-			_ = f2
+			pa, g = takeBAction(g)
+			sa, g = takeBAction(g)
+			la, g = takeBAction(g)
+			sub := &cobra.Command{Use: "sub", Args: cobra.ArbitraryArgs, Run: func(*cobra.Command, []string) {}}
+			sub.PersistentFlags().String("pers", "", "")
+			leaf := &cobra.Command{Use: "leaf", Args: cobra.ArbitraryArgs, Run: func(*cobra.Command, []string) {}}
+			sub.AddCommand(leaf)
+			root.AddCommand(sub)
+			carapace.Gen(sub).FlagCompletion(carapace.ActionMap{"pers": pa.action()})
+			carapace.Gen(sub).PositionalAnyCompletion(sa.action())
+			carapace.Gen(leaf).PositionalAnyCompletion(la.action())
 			return root
 		}
 		// locate words / cur: skip the actions once
@@ -299,6 +334,9 @@ func bridgeRun(cf []string) []string {
 			g = g[1:]
 		}
 		skip()
+		skip()
+		skip()
+		skip()
 		words, rest := takeList(g)
 		cur := rest[0]
 		exp, p1 := runRoot(build(), append(append([]string{"_carapace", "export", "root"}, words...), cur))
@@ -314,7 +352,7 @@ func bridgeRun(cf []string) []string {
 		}
 		var kept []string
 		for _, l := range lines {
-			if l == "" || strings.HasPrefix(l, "completion\t") || strings.HasPrefix(l, "help\t") || l == "_carapace" {
+			if l == "" || strings.HasPrefix(l, "completion\t") || strings.HasPrefix(l, "help\t") || l == "_carapace" || l == "sub" || l == "leaf" {
 				continue
 			}
 			kept = append(kept, l)
